@@ -105,7 +105,9 @@ def run_verus_crate(cname, cdef, outdir, threads, extra_args=()):
         return res
     res.meta, res.gen_path = meta, gen_path
     res.expect_fail = cdef.get("expect_fail", [])
-    args = ["verus", "gen.rs", "--output-json", "--time", "--error-format=json", "--num-threads", str(threads)]
+    args = ["verus", "gen.rs", "--output-json", "--time", "--error-format=json"]
+    if "--num-threads" not in cdef.get("args", []):
+        args += ["--num-threads", str(threads)]
     args += cdef.get("args", []) + list(extra_args)
     res.cmd = " ".join(args)
     rc, out, err, wall = sh(args, cwd=outdir, timeout=cdef.get("timeout", 3000))
